@@ -26,6 +26,8 @@ var c02Texts = []string{
 	"10\u00a0000\u00a0km", "東京\u3000都", "line1\nline2", "a\u2003b", "x\u00a0 y",
 	// texts that begin and end with the very strings used as encapsulation pairs
 	`"x"`, `""`, `"a" b "c"`, "<v>", "'q'", "«z»", "[i]", "`t`", "{m}", "(p)",
+	// the replacement character itself is ordinary (validly encoded) text
+	"x\uFFFDy", "\uFFFD", "ok \uFFFD\uFFFD end",
 }
 
 func c02Leaf(r *core.Rng) *LeafDesc {
